@@ -215,7 +215,7 @@ def factorImpl (o : Oracle σ) : Nat → Nat → Algo → St σ → Res (St σ)
         let s := { s with os := os }
         match r with
         | some (as, b) => .inl (splitMany s as b)
-        | none => .inr s        -- NO return and NO push: control falls out of the match
+        | none => .inl (.ok (s.giveup n))
       | .squfof =>
         if bits n > 64 then .inl (.panic "assert!(n.bits() <= 64)")
         else
